@@ -61,7 +61,7 @@ fn main() {
         }
     }
     // panics inside cases are caught and reported as the observation `panic`
-    std::panic::set_hook(Box::new(|_| {}));
+    if std::env::var_os("VERIF_PANIC_VERBOSE").is_none() { std::panic::set_hook(Box::new(|_| {})); }
     let mut ctx = Ctx::new(seed, tier == "thorough");
     match (args[1].as_str(), args[2].as_str()) {
         ("gen", "C16") => c16::gen(&mut ctx),
